@@ -9,7 +9,10 @@ IDS=${@:-$(ls harmless | grep '\.diff$' | sed 's/\.diff$//')}
 for id in $IDS; do
   P=${id%-*}
   git -C $WT checkout -q -- . ; git -C $WT clean -fdq
-  if ! git -C $WT apply $PWD/harmless/$id.diff 2>/dev/null; then echo "$id: does not apply"; continue; fi
+  PATCH=$PWD/harmless/$id.diff
+  # (re-based by its author over fix: commits that touched the same lines)
+  git -C $WT apply --check $PATCH 2>/dev/null || { [ -f $PWD/harmless/$id.rebased.diff ] && PATCH=$PWD/harmless/$id.rebased.diff; }
+  if ! git -C $WT apply $PATCH 2>/dev/null; then echo "$id: does not apply"; continue; fi
   out=$(VERIF_REPO=$WT ./check $P quick 2>&1 | grep "^C.. quick\|^VIOLATION\|HARNESS" | cut -c1-230 | tr '\n' ' ')
   echo "$id: $out"
 done
